@@ -512,14 +512,29 @@ type scriptedEndpoint struct {
 	d    *disk
 }
 
+var errUnreachable = errors.New("endpoint unreachable")
+
 func (e *scriptedEndpoint) Poll(ctx context.Context) error {
-	<-ctx.Done()
-	return nil
+	e.w.mu.Lock()
+	e.w.note(e.side, "Poll")
+	broken := e.w.broken[e.side]
+	e.w.mu.Unlock()
+	select {
+	case <-ctx.Done():
+		return nil
+	case <-broken:
+		// The endpoint's connection is lost while the session sits idle.
+		return errUnreachable
+	}
 }
 
 func (e *scriptedEndpoint) Scan(_ context.Context, _ *core.Entry, _ bool) (*core.Snapshot, error, bool) {
 	e.w.mu.Lock()
 	defer e.w.mu.Unlock()
+	e.w.note(e.side, "Scan")
+	if e.w.down[e.side] {
+		return nil, errUnreachable, false
+	}
 	e.w.scans++
 	return e.d.snapshot(), nil, false
 }
@@ -527,8 +542,12 @@ func (e *scriptedEndpoint) Scan(_ context.Context, _ *core.Entry, _ bool) (*core
 func (e *scriptedEndpoint) Stage(paths []string, _ [][]byte) ([]string, []*rsync.Signature, rsync.Receiver, error) {
 	// Everything is "already staged": no path is handed back for transfer.
 	e.w.mu.Lock()
+	defer e.w.mu.Unlock()
+	e.w.note(e.side, "Stage")
+	if e.w.down[e.side] {
+		return nil, nil, nil, errUnreachable
+	}
 	e.w.staged[e.side] += len(paths)
-	e.w.mu.Unlock()
 	return nil, nil, nil, nil
 }
 
@@ -550,6 +569,10 @@ func (e *scriptedEndpoint) Transition(ctx context.Context, transitions []*core.C
 	}
 	w.mu.Lock()
 	defer w.mu.Unlock()
+	w.note(e.side, "Transition")
+	if w.down[e.side] {
+		return nil, nil, false, errUnreachable
+	}
 	call := transCall{Side: e.side}
 	results := make([]*E, len(transitions))
 	var problems []*core.Problem
@@ -634,8 +657,12 @@ func (handler) Connect(_ context.Context, _ *logging.Logger, u *urlpkg.URL, _ st
 		side, d = "alpha", w.alpha
 	}
 	w.mu.Lock()
+	defer w.mu.Unlock()
+	w.note(side, "Connect")
+	if w.down[side] {
+		return nil, errUnreachable
+	}
 	w.connects++
-	w.mu.Unlock()
 	return &scriptedEndpoint{w: w, side: side, d: d}, nil
 }
 
@@ -675,6 +702,52 @@ type world struct {
 	staged   map[string]int
 	stale    int
 	infra    string
+
+	// Journal of endpoint calls (global order shared with the harness's marks of
+	// API calls) and endpoint reachability (C29 leg).
+	jseq    int
+	journal []jEntry
+	down    map[string]bool          // side -> unreachable: Connect, Scan, Stage, Transition fail
+	broken  map[string]chan struct{} // closed when the side becomes unreachable: a pending Poll fails
+}
+
+type jEntry struct {
+	Seq  int
+	Side string
+	Op   string // Connect Poll Scan Stage Transition
+}
+
+// note appends a journal entry; the caller holds w.mu.
+func (w *world) note(side, op string) {
+	w.jseq++
+	w.journal = append(w.journal, jEntry{w.jseq, side, op})
+}
+
+// mark returns a fresh sequence number (position of a harness-side event in
+// the journal's order).
+func (w *world) mark() int {
+	w.mu.Lock()
+	defer w.mu.Unlock()
+	w.jseq++
+	return w.jseq
+}
+
+// setReachable makes an endpoint unreachable (a pending Poll returns an error,
+// every later call and Connect fail) or reachable again.
+func (w *world) setReachable(side string, reachable bool) {
+	w.mu.Lock()
+	defer w.mu.Unlock()
+	if reachable {
+		if w.down[side] {
+			w.down[side] = false
+			w.broken[side] = make(chan struct{})
+		}
+		return
+	}
+	if !w.down[side] {
+		w.down[side] = true
+		close(w.broken[side])
+	}
 }
 
 func (w *world) fail(format string, args ...any) {
@@ -775,6 +848,8 @@ func newWorld(root string, cfg worldConfig, alphaTree, betaTree *E, verbose bool
 		id:     fmt.Sprintf("w%d", worldSeq.Add(1)),
 		cfg:    cfg,
 		staged: map[string]int{},
+		down:   map[string]bool{},
+		broken: map[string]chan struct{}{"alpha": make(chan struct{}), "beta": make(chan struct{})},
 		log:    &logSink{keep: verbose},
 	}
 	ph := map[string]bool{}
